@@ -87,6 +87,20 @@ def run(prop, src, jobs=16):
                     work.append(({"name": f"behaviour-preserving cleanup {d}", "patch": pf}, "clean"))
                 else:
                     work.append(({"name": f"seeded regression {d}", "patch": pf, "expect": prop + "."}, "mutant"))
+    # reverts of the repository's own `fix:` commits (stored as reverse patches): the rule that found the defect
+    # must report it again when the repair is undone
+    rv = os.path.join(os.path.dirname(os.path.abspath(__file__)), "reverts")
+    if os.path.isdir(rv):
+        import json
+        try:
+            fixed = json.load(open(os.path.join(VERIF, "known_findings.json"))).get("fixed", [])
+        except Exception:
+            fixed = []
+        for f in sorted(os.listdir(rv)):
+            if f.startswith(prop + "-") and f.endswith(".diff"):
+                commit = f[len(prop) + 1:-5]
+                rules = sorted({e["rule"].split("-")[0] for e in fixed if e.get("commit") == commit and e.get("property") == prop})
+                work.append(({"name": f"revert of fix {commit}", "patch": os.path.join(rv, f), "expect": rules[0] if len(rules) == 1 else prop + "."}, "mutant"))
     if not work:
         return None
     with ThreadPoolExecutor(jobs) as ex:
